@@ -211,7 +211,7 @@ def replay_main(args):
     want = str(rep.get("hashseed") or "0")
     if os.environ.get("PYTHONHASHSEED", "") != want:
         # the string-hash seed of the worker that observed the violation is part of the replay
-        os.execve(sys.executable, [sys.executable, "-m", "vmon.runner"] + sys.argv[1:], dict(os.environ, PYTHONHASHSEED=want))
+        os.execve(sys.executable, [sys.executable, "-m", "vmon.runner"] + sys.argv[1:], dict(os.environ, PYTHONUTF8="1", PYTHONHASHSEED=want))
     mod = load_check(rep["property"])
     stats = Stats()
     out = run_cases(mod, [rep["case"]], stats, collect_cover=False)
@@ -251,7 +251,8 @@ def parent_main(args):
                "--shard", "%d/%d" % (i, jobs), "--out", out]
         # every worker process runs under another string-hash seed (the order in which sets and dicts of strings iterate is part of
         # the environment, not of the input); the shard -> seed assignment is fixed, replays restore the seed of the failing shard
-        env_i = dict(env, PYTHONHASHSEED=str(i % 8) if os.environ.get("VMON_HASHSEEDS", "vary") == "vary" else env.get("PYTHONHASHSEED", "0"))
+        # (Python's UTF-8 mode: files opened without an explicit encoding are UTF-8 whatever locale the check is started from)
+        env_i = dict(env, PYTHONUTF8="1", PYTHONHASHSEED=str(i % 8) if os.environ.get("VMON_HASHSEEDS", "vary") == "vary" else env.get("PYTHONHASHSEED", "0"))
         procs.append((subprocess.Popen(cmd, cwd=VERIF, env=env_i, stdout=log, stderr=subprocess.STDOUT), out, log))
     inconclusive = []
     results = []
